@@ -602,8 +602,8 @@ class Interp:
         claims that the scanner would have treated this character as plain text.  Check the claim: run the first
         iteration of the callee from the token start and compare what it does with what the caller did."""
         from . import lea_prims
-        if not self.fn_stack:
-            return
+        if not self.fn_stack or not name.startswith("Lexer::"):
+            return      # only scanners of the lexer itself work from the token start; helpers get a cursor by contract
         caller = self.fn_stack[-1]
         tb = st.cur_token.get("cur_token_byte_offset")
         sn = lea_prims.snap_of(tb) if tb is not None else None
@@ -1022,6 +1022,10 @@ class Interp:
         return res
 
     def is_enum_variant(self, path):
+        # Option / Result / ControlFlow variants also appear as lang-item struct patterns (`None {}`, `Some { 0: x }`)
+        # in the desugaring of `for` and `?`
+        if path.split("::")[-1] in ("Some", "None", "Ok", "Err", "Break", "Continue"):
+            return True
         parent = "::".join(path.split("::")[:-1])
         a = self.fx.adts.get(parent)
         return a is not None and a["kind"] == "enum"
@@ -1652,6 +1656,10 @@ class Interp:
                     continue
                 if isinstance(o.val, LRef):
                     self.store(o.val, val, o.st, n)
+                elif self.is_iter_item(o.val):
+                    # `*dst = v` where dst is an item of an iterator (`for dst in buf.iter_mut()`): a store into
+                    # local memory LEA does not model; lexer state is only reachable through LRef / Obj values
+                    self.emit(o.st, "opaque_store", n, target=o.val, value=val)
                 else:
                     self.note_unanalysed("assignment through non-reference %r" % (o.val,), n)
                 res.append(Out("val", UNIT, o.st))
@@ -2153,6 +2161,19 @@ class Interp:
                 q = sn[2]
         return q is not None and q in mc and cur in mc and mc[cur] - mc[q] >= 1
 
+    def is_iter_item(self, v):
+        """A value obtained from an iterator's `next()` (possibly projected out of a tuple item)."""
+        for _ in range(6):
+            if not isinstance(v, Term):
+                return False
+            if v.op.startswith("next#") or v.op == "item_of":
+                return True
+            if (v.op.startswith("Some.") or v.op.startswith("proj") or v.op.startswith("field")) and v.args:
+                v = v.args[0]
+                continue
+            return False
+        return False
+
     def loop_cuts_literals(self, loop):
         """Does the loop body cut literal sections (scanners that unquote text)?  Only those get an exact second
         iteration: the payload decision compares literal-buffer positions that widening cannot keep."""
@@ -2186,6 +2207,11 @@ class Interp:
                         pass
                     elif isinstance(v, (Obj, Closure, FnRef)):
                         pass
+                    elif isinstance(v, Term) and v.op in ("iter_nonempty", "iter_rest"):
+                        # an iterator over the same collection, somewhere further along
+                        fr[lid] = Term("iter_rest", v.args, v.ty)
+                    elif isinstance(v, Enum) and v.path == "[iter_items]":
+                        fr[lid] = w.sym("loopvar", None)
                     elif lid in self.mark_locals(n) and (v.key() == NONE.key() or (isinstance(v, Enum) and v.variant == "Some") or (isinstance(v, Term) and v.op == "optmark")):
                         # Option<mark> only ever set to None / Some(mark_token_start()) / kept: later it is
                         # None or an earlier mark
